@@ -78,6 +78,14 @@ class EqAny:
     return '<EqAny %r>' % (self.tag,)
 
 
+class IdentityObj(NonLit):
+  """The value of a Python-defined constant: it is that very object that must be delivered, so - unlike the other
+  pool values - a deep copy of it is a different (recognisable) object."""
+
+  def __deepcopy__(self, memo):
+    return IdentityObj(self.name)
+
+
 class HookError(Exception):
   """Raised by a probe finalize hook that is specified to fail."""
 
@@ -370,7 +378,9 @@ class World:
     if t == 'nonlit':
       if v[1] not in self.nonlits:
         # identity-carrying sentinels for ids starting with 'o' (constants), otherwise pool values
-        if v[1].startswith('o') or not self.nonlit_pool or self.plain_lits:
+        if v[1].startswith('o'):
+          self.nonlits[v[1]] = IdentityObj(v[1])
+        elif not self.nonlit_pool or self.plain_lits:
           self.nonlits[v[1]] = NonLit(v[1])
         else:
           self.nonlits[v[1]] = self.nonlit_pool.pop()
@@ -528,6 +538,26 @@ class World:
       res['status'] = 'ok'
     elif op == 'Register':
       res['status'] = self.register(o['conf'])
+    elif op == 'ParseImport':
+      try:
+        gin.parse_config('import %s\n' % o['module'])
+        res['status'] = 'ok'
+      except Exception as e:  # pylint: disable=broad-except
+        res['status'] = type(e).__name__
+        res['msg'] = str(e)
+    elif op == 'SingletonDirect':
+      built = []
+
+      def ctor():
+        built.append(1)
+        return self.to_real(['nonlit', 'sd'])
+      try:
+        self.config.singleton_value(scope_str(o['key']), ctor)
+        res['status'] = 'ok'
+        res['fresh'] = bool(built)
+      except Exception as e:  # pylint: disable=broad-except
+        res['status'] = type(e).__name__
+        res['msg'] = str(e)
     elif op == 'Query':
       key = '%s%s.%s' % (scope_str(o['scope']) + '/' if o['scope'] else '', dotted(o['spelling']), o['param'])
       try:
@@ -686,6 +716,7 @@ class World:
                 consts=set((k, core.jdump(self.to_spec(v))) for k, v in config._CONSTANTS.items() if k != 'gin.REQUIRED'),
                 interactive=bool(config._INTERACTIVE_MODE),
                 singles=set(config._SINGLETONS),
+                imports=set(getattr(i, 'module', str(i)) for i in config._IMPORTS),
                 reg=set(k for k, _ in config._REGISTRY.items() if k not in self._reg_before),
                 nhooks=len(config._FINALIZE_HOOKS) - len(self._hooks_before))
 
@@ -731,7 +762,8 @@ def spec_projection(st):
               consts=set((dotted(k['name']), core.jdump(k['val'])) for k in st['consts']),
               interactive=bool(st['interactive']),
               singles=set(scope_str(x['key']) for x in st['singles']),
-              reg=set(dotted(c['sel']) for c in st['reg'] if c['api'] != 'builtin'), nhooks=len(st['hooks']))
+              reg=set(dotted(c['sel']) for c in st['reg'] if c['api'] != 'builtin'), nhooks=len(st['hooks']),
+              imports=set(st.get('imports', ())))
 
 
 def norm_pairs(x):
@@ -756,6 +788,8 @@ def compare_out(want, got):
     ge = [core.jdump([e['sel'], e['scope'], norm_pairs(e['delivered'])]) for e in got['evals']]
     if we != ge:
       return ('evals', we, ge)
+  if want['op'] == 'SingletonDirect' and got.get('status') == 'ok' and bool(want['fresh']) != got.get('fresh'):
+    return ('constructed', bool(want['fresh']), got.get('fresh'))
   if want['op'] == 'Finalize' and got.get('sawParsed') is False:
     return ('hooks-see-config-as-parsed', True, False)
   if (want['op'] == 'Bind' and want['status'] == 'RuntimeError' and got['status'] in ('RuntimeError', 'ValueError', 'KeyError')
@@ -793,7 +827,7 @@ def compare_out(want, got):
   return None
 
 
-ALL_FIELDS = ('cfg', 'okeys', 'oper', 'stack', 'cur', 'locked', 'reg', 'nhooks', 'consts', 'interactive', 'singles')
+ALL_FIELDS = ('cfg', 'okeys', 'oper', 'stack', 'cur', 'locked', 'reg', 'nhooks', 'consts', 'interactive', 'singles', 'imports')
 
 
 def compare_state(want, got, fields=ALL_FIELDS):
